@@ -24,13 +24,25 @@ def search(prop, names, failure, repo):
         out = ''
     res = {'kind': 'bounded witness search on the real crate (vf_replay search %s)' % prop, 'failing_input': None,
            'output': out[-3000:]}
-    m = re.search(r'^WITNESS property=%s case=(\S+) replay=(.*)$' % prop, out, flags=re.M)
-    if m:
+    # witnesses: `WITNESS property=.. case=.. replay=..` followed by indented expected/actual lines.  A crash-type witness
+    # (PANIC / ABORT / HANG) decides only the properties that are about crashes; for the others it is discounted.
+    crash_props = ('C01', 'C02', 'C13', 'C18')
+    blocks = re.split(r'(?m)^(?=WITNESS property=)', out)
+    for bl in blocks:
+        m = re.match(r'WITNESS property=%s case=(\S+) replay=(.*)' % prop, bl)
+        if not m:
+            continue
+        ma = re.search(r'(?m)^\s+actual:\s*(.*)$', bl)
+        crash = bool(ma and re.match(r'(PANIC|ABORT|HANG)', ma.group(1)))
+        if crash and prop not in crash_props:
+            res.setdefault('discounted_crash_witnesses', []).append(m.group(1))
+            continue
         args = m.group(2).strip().split()
-        res['failing_input'] = {'case': m.group(1), 'replay': m.group(2).strip()}
+        res['failing_input'] = {'case': m.group(1), 'replay': m.group(2).strip(), 'detail': bl.strip()[:1500]}
         res['replay_args'] = args
         rr = witness.run_replay(args)
         res['real_code_behaviour'] = rr.get('output') or rr.get('error')
+        break
     _cache[prop] = res
     return res
 
